@@ -99,7 +99,11 @@ def still_valid(old, new, dsge: bool):
     if dsge and og[0] == "dna" and ng[0] == "dna":
         od, nd = dict(og[1]), dict(ng[1])
         if all(k in nd and nd[k][:len(v)] == v for k, v in od.items()):
-            return None  # on-demand extension only
+            # on-demand extension is permitted only while THIS genotype is being mapped, i.e. when
+            # its phenotype cache went from empty to filled since the snapshot
+            if old["phenotype"] is None and new["phenotype"] is not None:
+                return None
+            return "genes appended although this individual was not being mapped (gene lists shared with another genotype?)"
         return "genes changed (not a pure extension)"
     return "genotype changed"
 
@@ -177,6 +181,11 @@ def run(h: Harness):
         mind = g.get_min_tree_depth()
         if mind >= 1000000:
             continue
+        if gi % 3 == 0 and gram.concrete_recursive_start(spec, rng):
+            b = gram.build(spec)
+            g = b.extract()
+            mind = g.get_min_tree_depth()
+            h.count("concrete-recursive-start")
         line = sx(gram.spec_sx(spec))
         problem = SingleObjectiveProblem(lambda p: float(len(repr(p)) % 23), minimize=rng.random() < 0.5)
         seedv = rng.randrange(10**6)
@@ -232,7 +241,11 @@ def run(h: Harness):
                     continue
                 step = mk()
                 k = rng.choice([2, 3, len(pool) - 1, len(pool)])
-                st, out = safe(lambda: list(step.apply(problem, ev, rep, r, list(pool), k, 1)))
+                given = list(pool)
+                st, out = safe(lambda: list(step.apply(problem, ev, rep, r, given, k, 1)))
+                if [id(x) for x in given] != [id(x) for x in pool]:
+                    h.fail(f"{name}:step[{sname}]", "input-population-list-modified",
+                           f"{sname}.apply changed the list object it was given: {len(pool)} -> {len(given)} individuals", [line, name, seedv, sname, k])
                 h.seen(f"{line}:{name}:{seedv}:step:{sname}", nontrivial=st == "ok" and any(all(o is not p for p in pool) for o in out))
                 h.count(f"step:{sname}:{st}")
                 w2.refresh_fitness_only = True
